@@ -277,6 +277,12 @@ func (s *store) dispatchRequests() {
 			if req.response != nil {
 				req.response <- s.update(req.username, req.password)
 			} else {
+				// This upgrade has been queued by an earlier login. The password may have been
+				// changed (or the user removed) in the meantime - never overwrite that.
+				if ok, _, upgradeable, _, _ := s.dir.Authenticate(req.username, req.password); !ok || !upgradeable {
+					wdl.Printf("upgrade(local): ignoring outdated upgrade request for '%s'", req.username)
+					break
+				}
 				wdl.Printf("upgrade(local): upgrading '%s'", req.username)
 				if resp := s.update(req.username, req.password); resp.err != nil {
 					wl.Printf("upgrade(local): failed for '%s': %v", req.username, resp.err)
